@@ -903,6 +903,27 @@ impl Sim {
             .expect("fzharness: undecodable ROYALTY_REGISTRY")
             .flatten();
         let idx_ok = listing_indexes_ok(&store, &listings);
+        {
+            // the typed state must account for every byte of the contract's storage
+            let mut expected = MockStorage::new();
+            for ((owner, id), l) in &listings {
+                let _ = listingz().save(&mut expected, (owner, *id), l);
+            }
+            for ((owner, id), b) in &buckets {
+                BUCKETS.save(&mut expected, (owner.clone(), *id), b).expect("re-save bucket");
+            }
+            for id in &listing_ids_used {
+                LISTING_ID_USED.save(&mut expected, *id, &true).expect("re-save id");
+            }
+            for id in &bucket_ids_used {
+                BUCKET_ID_USED.save(&mut expected, *id, &true).expect("re-save id");
+            }
+            FEE_DENOM.save(&mut expected, &fee_denom).expect("re-save fee denom");
+            if let Some(r) = ROYALTY_REGISTRY.may_load(&store).expect("fzharness: undecodable ROYALTY_REGISTRY") {
+                ROYALTY_REGISTRY.save(&mut expected, &r).expect("re-save registry");
+            }
+            note_unaccounted("marketplace", &store, &expected, idx_ok);
+        }
         MarketState {
             listings,
             buckets,
@@ -931,10 +952,16 @@ impl Sim {
     /// Registry entries `(collection, RoyaltyInfo)` in storage order.
     pub fn registry_entries(&self) -> Vec<(Addr, RoyaltyInfo)> {
         let store = self.contract_store(&self.meta.registry);
-        royalty::state::REGISTRY
+        let entries: Vec<(Addr, RoyaltyInfo)> = royalty::state::REGISTRY
             .range(&store, None, None, Order::Ascending)
             .collect::<Result<_, _>>()
-            .expect("fzharness: undecodable registry record")
+            .expect("fzharness: undecodable registry record");
+        let mut expected = MockStorage::new();
+        for (a, r) in &entries {
+            royalty::state::REGISTRY.save(&mut expected, a, r).expect("re-save registry record");
+        }
+        note_unaccounted("royalty registry", &store, &expected, true);
+        entries
     }
 
     pub fn bank_balance(&self, addr: &str, denom: &str) -> u128 {
@@ -1055,6 +1082,44 @@ impl Sim {
             });
         }
         rows
+    }
+}
+
+// ---------------------------------------------------------------------------------------
+// Completeness of the typed view: no storage the model does not account for
+// ---------------------------------------------------------------------------------------
+
+/// First storage entry found that the typed state (re-saved through the repo's own accessors)
+/// does not reproduce byte for byte. `fzgen` refuses to report a clean exploration when set:
+/// the model's state would no longer be the whole state of the contract.
+pub static UNACCOUNTED: std::sync::Mutex<Option<String>> = std::sync::Mutex::new(None);
+
+/// cw2's version record, written once at instantiation and never read by any handler.
+const CW2_KEY: &[u8] = b"contract_info";
+
+fn note_unaccounted(which: &str, real: &MockStorage, expected: &MockStorage, listings_ok: bool) {
+    let strip = |s: &MockStorage| -> Vec<(Vec<u8>, Vec<u8>)> {
+        s.range(None, None, Order::Ascending)
+            .filter(|(k, _)| k.as_slice() != CW2_KEY)
+            // listing index damage is reported separately (idxOk, oracle oIdx)
+            .filter(|(k, _)| listings_ok || !in_listing_namespace(k))
+            .collect()
+    };
+    let (have, want) = (strip(real), strip(expected));
+    if have == want {
+        return;
+    }
+    let odd = have.iter().find(|kv| !want.contains(kv)).or_else(|| want.iter().find(|kv| !have.contains(kv)));
+    if let Some((k, v)) = odd {
+        let mut g = UNACCOUNTED.lock().unwrap();
+        if g.is_none() {
+            *g = Some(format!(
+                "{} storage is not what its typed records say: key {:?} value {:?}",
+                which,
+                String::from_utf8_lossy(k),
+                String::from_utf8_lossy(&v[..v.len().min(80)])
+            ));
+        }
     }
 }
 
